@@ -110,7 +110,15 @@ def getattr(I, st, v, name):
                 yield from I.call(m, [v], {}, st)
                 return
             if isinstance(m, FuncVal) and any(d in ("cached_property",) for d in m.decorators()):
-                yield from I.call(m, [v], {}, st)
+                # functools.cached_property is a NON-data descriptor: the first read computes the value and stores it in
+                # the instance dictionary under the same name, later reads find it there (nothing recomputes it)
+                if name in e.attrs:
+                    yield st, e.attrs[name]
+                    return
+                for st1, r in I.call(m, [v], {}, st):
+                    if not isinstance(r, Exc):
+                        st1.get(v).attrs[name] = r
+                    yield st1, r
                 return
             if name in e.attrs:
                 yield st, e.attrs[name]
